@@ -110,7 +110,7 @@ func runC09Mesh(c *hlib.Ctx) {
 		res := hlib.Guard(func() string {
 			for i := 0; i < nops; i++ {
 				f := c.Rng.Intn(nt)
-				switch c.Rng.Intn(19) {
+				switch c.Rng.Intn(23) {
 				case 16:
 					ops = append(ops, "cp")
 					other = m.Copy()
@@ -120,6 +120,55 @@ func runC09Mesh(c *hlib.Ctx) {
 				case 18:
 					ops = append(ops, "am")
 					m.AddMesh(other)
+				case 19, 20:
+					// IterateSorted with a comparator and a callback that adds/removes faces
+					ord := c.Rng.Perm(nt)
+					pos := make([]int, nt)
+					for i, f := range ord {
+						pos[f] = i
+					}
+					script, tok := genIterScript(c, nt)
+					ops = append(ops, "its", seqTok(ord), tok)
+					var visited []int
+					cb := scriptedCallback(c, script, &visited,
+						func(f int) { m.Add(tris[f]) }, func(f int) { m.Remove(tris[f]) },
+						func(f int) bool { return m.Contains(tris[f]) })
+					m.IterateSorted(func(t *model3d.Triangle) {
+						id, ok := faceID[t]
+						if !ok {
+							id = -1
+						}
+						cb(id)
+					}, func(a, b *model3d.Triangle) bool { return pos[faceID[a]] < pos[faceID[b]] })
+					outs = append(outs, seqStr(visited))
+					c.Stat("c09.mesh_iterate_sorted_with_mutating_callback", 1)
+				case 21:
+					// Iterate (Go map order) with such a callback; the observed sequence is the oracle
+					script, tok := genIterScript(c, nt)
+					var visited []int
+					cb := scriptedCallback(c, script, &visited,
+						func(f int) { m.Add(tris[f]) }, func(f int) { m.Remove(tris[f]) },
+						func(f int) bool { return m.Contains(tris[f]) })
+					m.Iterate(func(t *model3d.Triangle) {
+						id, ok := faceID[t]
+						if !ok {
+							id = -1
+						}
+						cb(id)
+					})
+					ops = append(ops, "it", tok, seqTok(visited))
+					outs = append(outs, seqStr(visited))
+					c.Stat("c09.mesh_iterate_with_mutating_callback", 1)
+				case 22:
+					script, tok := genIterScript(c, nt)
+					var visited []int
+					cb := scriptedCallback(c, script, &visited,
+						func(f int) { m.Add(tris[f]) }, func(f int) { m.Remove(tris[f]) },
+						func(f int) bool { return m.Contains(tris[f]) })
+					m.IterateVertices(func(p model3d.Coord3D) { cb(idOf3(pool, p)) })
+					ops = append(ops, "itv", tok, seqTok(visited))
+					outs = append(outs, seqStr(visited))
+					c.Stat("c09.mesh_iterate_vertices_with_mutating_callback", 1)
 				case 0, 1, 2, 3:
 					ops = append(ops, "add", strconv.Itoa(f))
 					m.Add(tris[f])
